@@ -394,4 +394,31 @@ def knownForcedTrain : List String :=
   ["nn/attention.py:scaled_dot_product_attention_simple:dropout", "zoo/matnet/encoder.py:MixedScoresSDPA.forward:dropout",
    "zoo/ptrnet/policy.py:PointerNetworkPolicy.forward:train()"]
 
+
+/-! ### non-autoregressive (heatmap) decoding: `_multistart_batched_index` and its memoisation (round 5) -/
+
+/-- `_multistart_batched_index(batch_size, num_starts)`: `arange(B)` for `S ≤ 1`, else `batchify(arange(B), S)`
+(start-major when `startMajor`, the extracted form; `repeat_interleave` otherwise) -/
+def narIndexWith (startMajor : Bool) (B S : Nat) : List Nat :=
+  if S ≤ 1 then List.range B
+  else if startMajor then tile S (List.range B)
+  else (List.range (B * S)).map (· / S)
+
+def narIndex (B S : Nat) : List Nat := narIndexWith Params.augNarIndexStartMajor B S
+
+/-- the memoisation key of one call: the pair `(B, S)` when the cache key has both components (`@lru_cache` on the two
+arguments), only the number of decoded rows `B · max(S, 1)` otherwise -/
+def narKey (keyHasBoth : Bool) (B S : Nat) : Nat × Nat := if keyHasBoth then (B, S) else (B * max S 1, 0)
+
+/-- the index a call `(B, S)` gets after the calls in `hist` (oldest first): the value stored by the FIRST earlier call with
+the same key, else freshly computed -/
+def narCachedIndex (keyHasBoth : Bool) (hist : List (Nat × Nat)) (B S : Nat) : List Nat :=
+  match hist.find? (fun c => narKey keyHasBoth c.1 c.2 == narKey keyHasBoth B S) with
+  | some c => narIndex c.1 c.2
+  | none => narIndex B S
+
+/-- `logits = heatmaps_logits[_indexer, current_action, :]`: decoded row `r` reads heatmap row `_indexer[r]` -/
+def narLogitsRow {H : Type} (heat : Nat → Nat → H) (indexer : List Nat) (cur : Nat → Nat) (r : Nat) : H :=
+  heat (indexer.getD r 0) (cur r)
+
 end Rl4co.Eval
